@@ -24,6 +24,17 @@ import (
 
 func init() { register("C09", c09) }
 
+// c09HeaderlessSigner signs like the wrapped signer but contributes no protected headers.
+type c09HeaderlessSigner struct {
+	inner interface {
+		Sign(data []byte) ([]byte, error)
+		Headers() jws.Headers
+	}
+}
+
+func (s c09HeaderlessSigner) Sign(data []byte) ([]byte, error) { return s.inner.Sign(data) }
+func (s c09HeaderlessSigner) Headers() jws.Headers            { return nil }
+
 // verifyNoPanic calls VerifyJWS and converts a panic into a violation.
 func verifyNoPanic(r *hx.Run, caseID, compact string, jwk *jws.JWK) (ok bool, err error) {
 	defer func() {
@@ -47,7 +58,7 @@ func b64d(s string) []byte {
 }
 
 func c09(r *hx.Run) {
-	r.Rule = "for each of the 5 key types: compact JWS produced independently (fx.CompactJWS) and by the library's own signers (SignModel, SignPayload, and NewJWS with every split of the headers between the caller's protected set and the signer's headers) over {alg}, {alg,kid}, {alg,b64:false} headers x 3 payloads must verify under the matching JWK; every single-bit flip of every byte of the decoded payload and signature, every header byte substitution that changes the parsed header, every foreign key (9 others), and the signature classes (empty, +-1, one byte inserted at or removed from every position, half, double, r/s zero, =n, swapped, DER) must be rejected while (r, n-s) verifies; grammar of malformed compact strings / headers / JWKs must give an error and never a panic. Non-trivial: distinct (JWS, key) pairs that reach signature verification."
+	r.Rule = "for each of the 5 key types: compact JWS produced independently (fx.CompactJWS) and by the library's own signers (SignModel, SignPayload, and NewJWS with every split of the headers between the caller's protected set and the signer's headers, the caller's map being modified between signing and serialization) over {alg}, {alg,kid}, {alg,b64:false} headers x 3 payloads must verify under the matching JWK; every single-bit flip of every byte of the decoded payload and signature, every header byte substitution that changes the parsed header, every foreign key (9 others), and the signature classes (empty, +-1, one byte inserted at or removed from every position, half, double, r/s zero, =n, swapped, DER) must be rejected while (r, n-s) verifies; grammar of malformed compact strings / headers / JWKs must give an error and never a panic. Non-trivial: distinct (JWS, key) pairs that reach signature verification."
 	payloads := [][]byte{[]byte(`{"a":1}`), []byte(`{"deltaHash":"EiAbc","updateKey":{"crv":"Ed25519","kty":"OKP","x":"AA"}}`), bytes.Repeat([]byte("x"), 300)}
 	allKeys := map[string][]*fx.Key{}
 	var flat []*fx.Key
@@ -296,6 +307,9 @@ func c09(r *hx.Run) {
 					splits["kid-only"] = jws.Headers{"kid": kidv}
 					splits["superset"]["kid"] = kidv
 				}
+				// a signer that contributes no headers of its own: everything comes from the caller's protected set
+				splits["same-as-signer|headerless-signer"] = sh
+				splits["superset|headerless-signer"] = splits["superset"]
 				for sn, protected := range splits {
 					cid := fmt.Sprintf("%s|p%d|newjws|%s", caseID, pi, sn)
 					if !r.Want(cid) {
@@ -310,8 +324,30 @@ func c09(r *hx.Run) {
 							}
 						}()
 						var obj *verifhooks.JSONWebSignature
-						obj, serr = verifhooks.NewJWS(protected, nil, payload, signer)
+						// the caller's header map is the caller's: it is changed after signing and before serialization (a map re-used
+						// for the next JWS) - what was signed is what is serialized
+						var mine jws.Headers
+						if protected != nil {
+							mine = jws.Headers{}
+							for k, v := range protected {
+								mine[k] = v
+							}
+						}
+						var sg interface {
+							Sign(data []byte) ([]byte, error)
+							Headers() jws.Headers
+						} = signer
+						if strings.HasSuffix(sn, "|headerless-signer") {
+							sg = c09HeaderlessSigner{signer}
+						}
+						obj, serr = verifhooks.NewJWS(mine, nil, payload, sg)
 						if serr == nil {
+							for k := range mine {
+								mine[k] = "changed-after-signing"
+							}
+							if mine != nil {
+								mine["late"] = "added-after-signing"
+							}
 							compact, serr = obj.SerializeCompact(false)
 						}
 					}()
